@@ -640,7 +640,10 @@ def front_slice(pid, cfg, tier, seed, workdir, rep, stats, findings):
             for v in viol:
                 kf = v.pop("_known", None)
                 if kf is None:
-                    rep.violation(v)
+                    # replay files for the first failures only; all of them are counted
+                    stats["failing_cases"] += 1
+                    if stats["failing_cases"] <= 40:
+                        rep.violation(v)
     stats["layouts"] = len(layout_names)
     stats["distinct_texts"] = len(distinct)
     stats["character_classes"] = sum(1 for k in stats if k.startswith("class:"))
